@@ -165,6 +165,13 @@ func (p Property) Meta(id uint32) object.MetaProperty {
 	var meta object.MetaProperty
 	meta.Uid = id
 	meta.Name = p.Name
+	// the signature of a property is the signature of its value:
+	// GenerateIDL writes a property of signature "i" as
+	// "prop name(param: int32)".
+	if len(p.Params) == 1 {
+		meta.Signature = p.Params[0].Type.Signature()
+		return meta
+	}
 	types := make([]signature.Type, 0)
 	for _, p := range p.Params {
 		types = append(types, p.Type)
